@@ -490,18 +490,19 @@ class ClientSSM(SSM):
                 if _debug: ClientSSM._debug("    - not in window")
                 self.restart_timer(self.segmentTimeout)
 
-            # final ack received?
-            elif self.sentAllSegments:
+            # final ack received?  sequence numbers on the wire are modulo
+            # 256, the segment being acknowledged is found as an absolute
+            # index from the start of the window
+            elif self.initialSequenceNumber + ((apdu.apduSeq - self.initialSequenceNumber) % 256) >= self.segmentCount - 1:
                 if _debug: ClientSSM._debug("    - all done sending request")
                 self.set_state(AWAIT_CONFIRMATION, self.apduTimeout)
 
-            # more segments to send
+            # more segments to send, or some of the last window to send again
             else:
                 if _debug: ClientSSM._debug("    - more segments to send")
 
-                # sequence numbers on the wire are modulo 256, keep the start
-                # of the window as an absolute segment index so that messages
-                # of more than 256 segments do not start over
+                # keep the start of the window as an absolute segment index so
+                # that messages of more than 256 segments do not start over
                 self.initialSequenceNumber += ((apdu.apduSeq - self.initialSequenceNumber) % 256) + 1
                 self.segmentRetryCount = 0
                 self.fill_window(self.initialSequenceNumber)
@@ -1138,17 +1139,19 @@ class ServerSSM(SSM):
                 if _debug: ServerSSM._debug("    - not in window")
                 self.restart_timer(self.segmentTimeout)
 
-            # final ack received?
-            elif self.sentAllSegments:
+            # final ack received?  sequence numbers on the wire are modulo
+            # 256, the segment being acknowledged is found as an absolute
+            # index from the start of the window
+            elif self.initialSequenceNumber + ((apdu.apduSeq - self.initialSequenceNumber) % 256) >= self.segmentCount - 1:
                 if _debug: ServerSSM._debug("    - all done sending response")
                 self.set_state(COMPLETED)
 
+            # more segments to send, or some of the last window to send again
             else:
                 if _debug: ServerSSM._debug("    - more segments to send")
 
-                # sequence numbers on the wire are modulo 256, keep the start
-                # of the window as an absolute segment index so that messages
-                # of more than 256 segments do not start over
+                # keep the start of the window as an absolute segment index so
+                # that messages of more than 256 segments do not start over
                 self.initialSequenceNumber += ((apdu.apduSeq - self.initialSequenceNumber) % 256) + 1
                 self.actualWindowSize = apdu.apduWin
                 self.segmentRetryCount = 0
